@@ -157,6 +157,20 @@ def run(ctx, eng):
     # ---- _initialize_content_length
     f4 = m.func(S + '_initialize_content_length')
     paths = eng.I.run(f4)
+    OLD = ('a', ('p', 'self'), '_expected_content_length', 0)
+    if not any(e.kind == 'write' and e.attr == '_expected_content_length'
+               for p in paths for e in p.events):
+        # the helper works the length out and its callers store it: read
+        # through the call, on the callers' paths with the helper taken in
+        # (storing the value the field already has is no write)
+        import ast as _ast
+        short = f4.qual.rsplit('.', 1)[1]
+        I4 = eng.interp({f4.qual}, depth=1)
+        callers = [fx for q, fx in sorted(m.funcs.items())
+                   if fx.cls == 'stream.H2Stream' and fx is not f4 and any(
+                       isinstance(nd, _ast.Attribute) and nd.attr == short
+                       for nd in _ast.walk(fx.node))]
+        paths = [p for fx in callers for p in I4.run(fx)]
     head = False
     head_bad = []
     hdr = False
@@ -164,7 +178,7 @@ def run(ctx, eng):
     bad_int = True
     for p in cm.normal_paths(paths):
         ws = [e for e in p.events if e.kind == 'write' and
-              e.attr == '_expected_content_length']
+              e.attr == '_expected_content_length' and e.value != OLD]
         conds = [cm.show0(e.cond) for e in p.events if e.kind == 'assume']
         if any(c in ("(self.request_method == b'HEAD')",
                      "(b'HEAD' == self.request_method)") for c in conds):
